@@ -349,3 +349,30 @@ func VerifH_C06_cancel_anytime() {
 	}
 	verifCheck(t, run, res, verifNorm(in), vCheckOpts{cancelled: true})
 }
+
+// C08 (validation order): a stage input is handed to a step only after its schema accepted it, and an
+// output is returned only after the output schema accepted its data.
+func VerifH_C08_validation_order() {
+	t := verifChain2()
+	t.steps[0].outcome = map[string]int{"deploy": 0, "start": 0, "result": 0}
+	t.steps[1].outcome = map[string]int{"deploy": 0, "start": 0, "result": 0}
+	ew, run := verifPrepare(t)
+	verifValidated, verifOutputValidated = 0, 0
+	verifRejectStageInput = verifrt.Choice("stage-input-valid", 2) == 1
+	verifRejectOutput = verifrt.Choice("output-valid", 2) == 1
+	in := verifrt.NondetVal("input")
+	res := verifExecute(ew, run, t, in)
+	verifrt.Assert((res.err == nil) != (res.id == ""), "Execute returns either an output or an error, never both or neither")
+	if verifRejectStageInput {
+		verifrt.Reach("input-rejected")
+		verifrt.Assert(len(run.handovers) == 0, "a stage input its schema rejects is never handed to the step")
+		verifrt.Assert(res.err != nil, "a rejected stage input ends the run with an error")
+	} else {
+		verifrt.Assert(len(run.handovers) <= verifValidated, "every hand-over was preceded by a validation of that input")
+	}
+	if res.err == nil {
+		verifrt.Reach("output")
+		verifrt.Assert(!verifRejectOutput && verifOutputValidated >= 1, "an output is returned only after its schema accepted the data")
+	}
+	verifRejectStageInput, verifRejectOutput = false, false
+}
